@@ -218,6 +218,7 @@ class SpatialTransform(DeviceProperty, Module, metaclass=ABCMeta):
         optimizer = torch.optim.Adam(params, lr=lr)
         for step in range(steps):
             optimizer.zero_grad()
+            self.update()
             loss = F.mse_loss(self.disp(), flow.tensor())
             loss.backward()
             optimizer.step()
@@ -227,6 +228,7 @@ class SpatialTransform(DeviceProperty, Module, metaclass=ABCMeta):
                 print(f"{type(self).__name__}.fit(): step={step}, mse={error.tolist()}")
             if converged:
                 break
+        self.clear_buffers()
 
     def forward(self, points: Tensor, grid: bool = False) -> Tensor:
         r"""Transform normalized points by this spatial transformation.
